@@ -424,6 +424,17 @@ def gSaRun (k : Gen.security.IKESAKey) : List SaOp → List String
     | .err => "err" :: gSaRun k rest
     | .fault => "panic" :: gSaRun k rest
 
+/-- `security.GenerateRandomNumber` as translated, under the package-level bounds the translated `init()` sets -/
+def gGenRandomOp (ts : Array String) : String :=
+  match (ts[1]?).bind parseX, ts[2]? with
+  | some rnd, some f =>
+    match Gen.security.init_ {} with
+    | .ok G =>
+      gresStr (fun (x : Rand × Nat) => "x" ++ String.ofList (Nat.toDigits 16 x.2))
+        (Gen.security.GenerateRandomNumber G { buf := rnd, failAt := DriverOps.failAtOf f })
+    | _ => "init-failed"
+  | _, _ => "bad-args"
+
 def gSaOpsOp (ts : Array String) : String :=
   match DriverOps.rdSA ts 1, DriverOps.parseAll ts 11 #[] with
   | some sa, some sxs =>
@@ -461,6 +472,7 @@ def gHandle (line : String) : String :=
     else if op == "childkeys" then gChildKeysOp ts
     else if op == "childkeys2" then gChildKeys2Op ts
     else if op == "saops" then gSaOpsOp ts
+    else if op == "genrandom" then gGenRandomOp ts
     else if op == "reenc" then
       if h3 : ts.size = 3 then
         match parseX ts[2] with
